@@ -2683,7 +2683,10 @@ event_remove_timer_nolock_(struct event *ev)
 	/* If it's not pending on a timeout, we don't need to do anything. */
 	if (ev->ev_flags & EVLIST_TIMEOUT) {
 		event_queue_remove_timeout(base, ev);
-		evutil_timerclear(&ev->ev_io_timeout);
+		/* ev_io_timeout shares storage with the call counters of a
+		 * signal event; only I/O and timer events have one. */
+		if (!(ev->ev_events & EV_SIGNAL))
+			evutil_timerclear(&ev->ev_io_timeout);
 	}
 
 	return (0);
